@@ -97,7 +97,7 @@ Proof.
     set (n := length (para t)).
     assert (Hp : para (firstn (n + 2) t) = p) by (apply para_firstn_more; unfold n; lia).
     assert (Hh : has_ch is_nl (firstn (n + 2) t) = true) by (rewrite has_nl_firstn; [exact Hnl|unfold n; lia]).
-    unfold G. rewrite Hp, Hh. fold n. cbn [option_map].
+    unfold Gpango, G. rewrite Hp, Hh. fold n. cbn [option_map].
     assert (Hf1 : firstn n (firstn (n + 2) t) = p).
     { rewrite firstn_firstn. replace (Nat.min n (n + 2)) with n by lia. apply para_firstn. }
     assert (Hf2 : firstn (S n) (firstn (n + 2) t) = firstn (S n) t).
@@ -114,51 +114,43 @@ Proof.
     assert (Hp'nl : has_ch is_nl p' = false).
     { unfold p'. destruct (space_collapse (st_ws st)); [apply rstrip_no_nl|]; apply para_no_nl. }
     unfold set_text, set_width, first. cbn [l_text l_w l_wc].
-    unfold truncate. rewrite (find_nl_none p' Hp'nl). rewrite ?(G_nowidth _ _ p' Hp'nl), ?(para_fix p' Hp'nl).
+    unfold truncate, Gpango. rewrite (find_nl_none p' Hp'nl). rewrite ?(G_nowidth _ _ p' Hp'nl), ?(para_fix p' Hp'nl).
     cbn [fst snd option_map]. rewrite firstn_all. reflexivity.
-  - unfold truncate. rewrite (find_nl_none t Hnl), (G_nowidth _ _ t Hnl). cbn [option_map first_line_metrics fst snd].
+  - unfold truncate, Gpango. rewrite (find_nl_none t Hnl), (G_nowidth _ _ t Hnl). cbn [option_map first_line_metrics fst snd].
     rewrite firstn_all. reflexivity.
 Qed.
 
-(* -------------------------------------------------------------- refutations found in the faithful model *)
+(* -------------------------------------------------------------- formerly refuted clauses, now repaired in /repo
+   (F110-F115): on the witnesses of the old refutations the model of the repaired split_first_line gives the greedy
+   line of the specification (spec_mask = 0).  Instances only: soft hyphens and breaks inside words are outside the
+   guard of first_line_is_greedy. *)
 Definition st_normal (ow : overflow_wrap) (break_all : bool) : style :=
   {| st_ws := WsNormal; st_ow := ow; st_break_all := break_all; st_hyph_manual := true; st_fs := 10 |}.
 From Coq Require Import String.
 Open Scope string_scope.
+Definition greedy_on (st : style) (t : text) (w : Q) (o : outcome) : Prop :=
+  sfl_model st t (Some w) true false = o /\ spec_mask st t (Some w) true false o = 0%nat.
 
-(* a first word wider than the line, a soft hyphen further on: the line runs up to that soft hyphen (260px in 70px)
-   where the greedy line is the first word alone *)
-Lemma greedy_refuted_overflow_runs_to_soft_hyphen :
-  exists st t w, let o := sfl_model st t (Some w) true false in
-    o = Out (tx "aaaaaaaaaa bbb ccc ddd ee-=") 27 (Some 27) 260 /\ (w < 260)%Q /\
-    sp_end (spec_first_line st t (Some w) true false) = 10%nat /\
-    spec_mask st t (Some w) true false o <> 0%nat.
-Proof.
-  exists (st_normal OwNormal false), (tx "aaaaaaaaaa bbb ccc ddd ee-ff gg"), 70%Q.
-  vm_compute. repeat split; try reflexivity; discriminate.
-Qed.
-
-(* a line broken at a soft hyphen without the hyphen, when what follows is shorter than the line *)
-Lemma soft_hyphen_break_without_hyphen :
-  exists st t w, let o := sfl_model st t (Some w) true false in
-    o = Out (tx "aaaaaa-") 8 (Some 8) 60 /\
-    sp_hyphen (spec_first_line st t (Some w) true false) = true /\
-    spec_mask st t (Some w) true false o <> 0%nat.
-Proof.
-  exists (st_normal OwNormal false), (tx "aaaaaa-bb cc"), 70%Q.
-  vm_compute. repeat split; try reflexivity; discriminate.
-Qed.
-
-(* word-break: break-all keeps room for a hyphen that is not drawn: two letters where three fit *)
-Lemma break_all_reserves_hyphen_room :
-  exists st t w, let o := sfl_model st t (Some w) true false in
-    o = Out (tx "aa") 2 (Some 2) 20 /\
-    sp_end (spec_first_line st t (Some w) true false) = 3%nat /\
-    spec_mask st t (Some w) true false o <> 0%nat.
-Proof.
-  exists (st_normal OwNormal true), (tx "aaaaaaa"), 30%Q.
-  vm_compute. repeat split; try reflexivity; discriminate.
-Qed.
+(* F112: a first word wider than the line with a soft hyphen further on: the line is the first word alone *)
+Lemma overflowing_word_stops_before_later_soft_hyphen :
+  greedy_on (st_normal OwNormal false) (tx "aaaaaaaaaa bbb ccc ddd ee-ff gg") 70 (Out (tx "aaaaaaaaaa") 10 (Some 11) 100).
+Proof. vm_compute. split; reflexivity. Qed.
+(* F111: a line broken at a soft hyphen shows the hyphen, whatever follows *)
+Lemma soft_hyphen_break_shows_hyphen :
+  greedy_on (st_normal OwNormal false) (tx "aaaaaa-bb cc") 70 (Out (tx "aaaaaa-=") 8 (Some 8) 70).
+Proof. vm_compute. split; reflexivity. Qed.
+(* F110: word-break: break-all fills the line, no room is kept for a hyphen *)
+Lemma break_all_fills_the_line :
+  greedy_on (st_normal OwNormal true) (tx "aaaaaaa") 30 (Out (tx "aaa") 3 (Some 3) 30).
+Proof. vm_compute. split; reflexivity. Qed.
+(* F114: a text that fits without its trailing space is not hyphenated *)
+Lemma text_fitting_without_trailing_space_is_not_hyphenated :
+  greedy_on (st_normal OwNormal false) (tx "gb-g ") 30 (Out (tx "gb-g ") 6 None 40).
+Proof. vm_compute. split; reflexivity. Qed.
+(* F115: under overflow-wrap: anywhere a soft hyphen keeps room for its hyphen *)
+Lemma soft_hyphen_keeps_room_under_overflow_wrap :
+  greedy_on (st_normal OwAnywhere false) (tx "aa aaaa-bbb cc") 70 (Out (tx "aa") 2 (Some 3) 20).
+Proof. vm_compute. split; reflexivity. Qed.
 
 (* ---------------------------------------------- the hypotheses of the theorems are satisfiable (examples) *)
 Example ex_words : words [tx "aaa"; tx "bbbb"; tx "c"] /\ [tx "aaa"; tx "bbbb"; tx "c"] <> [].
